@@ -39,6 +39,7 @@ import (
 	"github.com/anyproto/any-sync/commonspace/object/keyvalue"
 	"github.com/anyproto/any-sync/commonspace/object/keyvalue/keyvaluestorage/innerstorage"
 	"github.com/anyproto/any-sync/commonspace/spacesyncproto"
+	"github.com/anyproto/any-sync/commonspace/sync/objectsync/objectmessages"
 	"github.com/anyproto/any-sync/util/crypto"
 	"storj.io/drpc"
 
@@ -49,8 +50,8 @@ func TestCheck(t *testing.T) {
 	vk.Main(t, vk.Spec{
 		Prop:  "C12",
 		Level: "model_checking",
-		Rule: "explicit enumeration on the real store: (arrival) all multisets of <=4 (quick) / <=5 (thorough) values with at most one " +
-			"repeated value over slots x 3 timestamps, all distinct permutations, all compositions into SetRaw batches; (local) one real " +
+		Rule: "explicit enumeration on the real store: (arrival) all multisets of <=3 (quick) / <=4 (thorough) values over 4 slots x 3 timestamps, of 4 (quick) / 5 (thorough) values over the 2 devices of one key, thorough also <=3 over 6 slots, each with at most one " +
+			"repeated value, all distinct permutations, all compositions into SetRaw batches; (local) one real " +
 			"Storage.Set at every position of such sequences; (exchange) all ordered pairs of distinct reachable contents with <=3 values, one " +
 			"real syncWithPeer each; (auth) every relabelling / byte / signature / signer mutation of valid values inside [valid, mutant, valid]; " +
 			"(faults) an error at every storage-call boundary of a write. states = distinct canonical store contents (symbolic slot=timestamp " +
@@ -98,6 +99,7 @@ type checker struct {
 	fdb        *fDB
 	fhs        headstorage.HeadStorage
 	ctl        *faultCtl
+	lastStats  wireStats
 }
 
 func body(c *vk.Ctx) {
@@ -138,6 +140,7 @@ func body(c *vk.Ctx) {
 		t0 := time.Now()
 		p.f()
 		if os.Getenv("VERIF_VERBOSE") != "" {
+			dumpTim()
 			fmt.Fprintf(os.Stderr, "shard %d: part %s took %.1fs (executions so far %d)\n", c.Shard, p.name, time.Since(t0).Seconds(), c.Counter("executions").Load())
 		}
 	}
@@ -179,8 +182,24 @@ func batchesStr(bs [][]Val) string {
 
 // setRaw calls the real SetRaw, converting a panic of the code under test into an error string.
 func (k *checker) setRaw(s *kvstore, ps []*spacesyncproto.StoreKeyValue) (err error, panicked string) {
+	defer lap("setraw", time.Now())
 	k.c.Count("transitions", 1)
 	if p, what := vk.Recover(func() { err = s.st.SetRaw(ctx, ps...) }); p {
+		return nil, what
+	}
+	return err, ""
+}
+
+// push delivers a batch the way a peer's broadcast arrives: the sender's StoreKeyValues message (syncstorage
+// innerUpdate.Prepare) marshalled, wrapped into a HeadUpdate and handed to the real keyValueService.HandleMessage.
+func (k *checker) push(s *kvstore, ps []*spacesyncproto.StoreKeyValue) (err error, panicked string) {
+	k.c.Count("transitions", 1)
+	b, merr := (&spacesyncproto.StoreKeyValues{KeyValues: ps}).MarshalVT()
+	if merr != nil {
+		panic(merr)
+	}
+	svc := keyvalue.VerifNewService("space", s.id, s.st, nil)
+	if p, what := vk.Recover(func() { err = svc.HandleMessage(ctx, &objectmessages.HeadUpdate{Bytes: b}) }); p {
 		return nil, what
 	}
 	return err, ""
@@ -190,6 +209,7 @@ func (k *checker) setRaw(s *kvstore, ps []*spacesyncproto.StoreKeyValue) (err er
 
 type arrivalCase struct {
 	Part    string  `json:"part"`
+	Via     string  `json:"via,omitempty"` // "": Storage.SetRaw; "push": keyValueService.HandleMessage (pushed batch)
 	Batches [][]Val `json:"batches"`
 }
 
@@ -201,12 +221,16 @@ func (k *checker) runArrival(cs arrivalCase) (key, what string) {
 	var pat []string
 	lost, inBatch, dup := false, false, false
 	for _, b := range cs.Batches {
-		err, pn := k.setRaw(st, w.protosOf(b))
+		deliver := k.setRaw
+		if cs.Via == "push" {
+			deliver = k.push
+		}
+		err, pn := deliver(st, w.protosOf(b))
 		if pn != "" {
-			return "arrival/panic", fmt.Sprintf("%s: SetRaw panicked: %s", batchesStr(cs.Batches), pn)
+			return "arrival/panic", fmt.Sprintf("%s%s: SetRaw panicked: %s", cs.Via, batchesStr(cs.Batches), pn)
 		}
 		if err != nil {
-			return "arrival/setraw-error", fmt.Sprintf("%s: SetRaw of valid values returned %v", batchesStr(cs.Batches), err)
+			return "arrival/setraw-error", fmt.Sprintf("%s%s: SetRaw of valid values returned %v", cs.Via, batchesStr(cs.Batches), err)
 		}
 		p := ""
 		inThis := map[string]bool{}
@@ -233,7 +257,7 @@ func (k *checker) runArrival(cs arrivalCase) (key, what string) {
 		pat = append(pat, p)
 	}
 	k.c.Distinct("states", m.canon())
-	k.c.Distinct("distinct", "arrival "+strings.Join(pat, "|"))
+	k.c.Distinct("distinct", "arrival "+cs.Via+" "+strings.Join(pat, "|"))
 	k.c.Count("evaluations", 1)
 	o, err := st.observe(keyNames)
 	if err != nil {
@@ -334,9 +358,9 @@ func compose(seq []Val, mask int) (out [][]Val) {
 	return
 }
 
-func (k *checker) enumArrival(tag string, alpha []Val, maxN int, ci *int) (complete bool) {
+func (k *checker) enumArrival(tag string, alpha []Val, minN, maxN int, ci *int) (complete bool) {
 	c := k.c
-	for n := 1; n <= maxN; n++ {
+	for n := minN; n <= maxN; n++ {
 		stop := false
 		multisets(len(alpha), n, func(idx []int) {
 			if stop {
@@ -358,6 +382,9 @@ func (k *checker) enumArrival(tag string, alpha []Val, maxN int, ci *int) (compl
 				}
 				for mask := 0; mask < 1<<(n-1); mask++ {
 					cs := arrivalCase{Part: "arrival", Batches: compose(seq, mask)}
+					if (*ci/max(c.NShards, 1)+mask)%2 == 1 { // half of the cases arrive as pushed batches
+						cs.Via = "push"
+					}
 					if key, what := k.runArrival(cs); key != "" {
 						c.Violation(key, what, cs)
 					} else if n == maxN && mask == 5%(1<<(n-1)) {
@@ -378,9 +405,15 @@ func (k *checker) enumArrival(tag string, alpha []Val, maxN int, ci *int) (compl
 func (k *checker) partArrival() {
 	c, g := k.c, k.g
 	ci := 0
-	ok := k.enumArrival("4slots", alphabetOf(slotsOf("W1", "W2")), vk.Pick(c, 4, 5), &ci)
+	// Every write statement of the store costs ~1 ms in the pure-Go SQLite (a 64 KiB statement journal is mapped and
+	// unmapped per nested transaction), so the bounds are chosen to complete: the full 4-slot alphabet up to 3 (quick) /
+	// 4 (thorough) arrivals, and the longest sequences over the two devices of one key.
+	two := alphabetOf([]Val{{Key: "alpha", Dev: "W1"}, {Key: "alpha", Dev: "W2"}})
+	four := alphabetOf(slotsOf("W1", "W2"))
+	ok := k.enumArrival("4slots", four, 1, vk.Pick(c, 3, 4), &ci)
+	ok = ok && k.enumArrival("2slots", two, vk.Pick(c, 4, 5), vk.Pick(c, 4, 5), &ci)
 	if ok && c.Thorough() {
-		k.enumArrival("6slots", alphabetOf(slotsOf("W1", "W2", "O1")), 4, &ci)
+		k.enumArrival("6slots", alphabetOf(slotsOf("W1", "W2", "O1")), 1, 3, &ci)
 	}
 	c.Require(g.olderLost > 0, "vacuity: no arrival sequence in this shard where an older value arrived after a newer one and lost")
 	c.Require(g.inBatchOlder > 0, "vacuity: no batch in this shard carrying an older value behind a newer one of the same slot")
@@ -509,9 +542,7 @@ func (k *checker) runLocal(cs localCase) (key, what string) {
 
 func (k *checker) partLocal() {
 	c, g := k.c, k.g
-	if c.NShards > 1 && c.Shard != 1%c.NShards {
-		return
-	}
+	li := 0
 	alpha := []Val{{Key: "alpha", Dev: "O1", T: 1}, {Key: "alpha", Dev: "O1", T: 2}, {Key: "alpha", Dev: "O1", T: 3},
 		{Key: "alpha", Dev: "W1", T: 1}, {Key: "bravo", Dev: "O1", T: 2}}
 	maxN := vk.Pick(c, 3, 4)
@@ -543,6 +574,10 @@ func (k *checker) partLocal() {
 						}
 						if pos == len(batches) {
 							steps = append(steps, lstep{Set: "alpha"})
+						}
+						li++
+						if !c.Mine(li) {
+							continue
 						}
 						cs := localCase{Part: "local", Steps: steps}
 						if key, what := k.runLocal(cs); key != "" {
@@ -590,6 +625,9 @@ func (k *checker) runExchange(cs xCase) (key, what string) {
 		mu.add(v)
 	}
 	desc := fmt.Sprintf("client %s <-> server %s", ma.canon(), mb.canon())
+	if len(cs.A)+len(cs.B) > 12 {
+		desc = fmt.Sprintf("client with %d values <-> server with %d values", len(ma), len(mb))
+	}
 	for _, f := range []struct {
 		s  *kvstore
 		vs []Val
@@ -631,6 +669,7 @@ func (k *checker) runExchange(cs xCase) (key, what string) {
 			return "exchange/" + side.name + "-" + wh, fmt.Sprintf("%s: after one exchange both stores must hold %s; %s side: %s", desc, mu.canon(), side.name, detail)
 		}
 	}
+	k.lastStats = *stats
 	if stats.pushed > 0 && stats.pulled > 0 {
 		g.bothWays++
 	} else if stats.pushed > 0 || stats.pulled > 0 {
@@ -688,9 +727,44 @@ func (k *checker) enumExchange(tag string, states [][]Val, pi *int) bool {
 func (k *checker) partExchange() {
 	c, g := k.c, k.g
 	pi := 0
-	ok := k.enumExchange("4slots_le3", contents(slotsOf("W1", "W2"), 3), &pi)
+	ok := k.enumExchange("4slots", contents(slotsOf("W1", "W2"), vk.Pick(c, 2, 3)), &pi)
 	if ok && c.Thorough() {
-		k.enumExchange("6slots_le3", contents(slotsOf("W1", "W2", "O1"), 3), &pi)
+		k.enumExchange("6slots", contents(slotsOf("W1", "W2", "O1"), 2), &pi)
+	}
+	// a few large stores (several hundred slots: the index is subdivided, the comparison takes several rounds of
+	// range requests over the wire) — fixed scenarios, not an enumeration
+	if c.NShards <= 1 || c.Shard == 4%c.NShards {
+		mk := func(from, to int, t func(i int) int) (out []Val) {
+			for i := from; i < to; i++ {
+				out = append(out, Val{Key: fmt.Sprintf("key%03d", i), Dev: []string{"W1", "W2"}[i%2], T: t(i)})
+			}
+			return
+		}
+		a := mk(0, 300, func(i int) int {
+			if i%5 == 0 {
+				return 3
+			}
+			return 1
+		})
+		b := mk(100, 400, func(i int) int {
+			if i%3 == 0 {
+				return 2
+			}
+			return 1
+		})
+		rounds := 0
+		for _, p := range [][2][]Val{{a, b}, {b, a}, {a, nil}, {nil, b}, {a, a[:299]}} {
+			cs := xCase{Part: "exchange", A: p[0], B: p[1]}
+			if key, what := k.runExchange(cs); key != "" {
+				if len(what) > 1500 {
+					what = what[:1500] + "…"
+				}
+				c.Violation(key+" (large stores)", what, cs)
+			}
+			rounds = max(rounds, k.lastStats.diffRounds)
+		}
+		c.Require(rounds > 1, "vacuity: no large exchange needed more than one round of range requests (max %d)", rounds)
+		c.Bound("exchange_large_stores_slots", 300)
 	}
 	c.Require(g.bothWays > 0, "vacuity: no exchange in this shard that moved values both ways")
 	c.Require(g.oneWay > 0, "vacuity: no exchange in this shard that moved values one way only")
